@@ -692,7 +692,14 @@ impl History {
         let nops = cx.rng.range(5, 30);
         let mut cross = false;
         let mut last_q: Option<(usize, String)> = None;
-        for _ in 0..nops {
+        // reading a result buffer is itself a call: half of the histories read every live id after every call,
+        // the others read a random subset now and then (and everything at the end), so that work deferred
+        // until the first read would show
+        let read_always = cx.rng.chance(1, 2);
+        if !read_always {
+            cx.count("histories whose result buffers are read only now and then");
+        }
+        for opk in 0..nops {
             let id = *cx.rng.pick(&idset);
             let exists = model.contains_key(&id);
             let roll = if exists { 2 + cx.rng.below(10) } else { 0 };
@@ -817,8 +824,12 @@ impl History {
                     }
                 }
             }
-            // observe every live id
+            // observe the live ids
+            let read_now = read_always || opk + 1 == nops || cx.rng.chance(1, 4);
             for (mid, (_, last)) in model.iter() {
+                if !read_now || (!read_always && opk + 1 != nops && cx.rng.chance(1, 2)) {
+                    continue;
+                }
                 let got: Hits = if via_bridge {
                     let ids = bridge::get_result_ids(*mid);
                     let titles = bridge::get_result_titles(*mid);
@@ -887,7 +898,7 @@ impl Prop for History {
         match self.0 {
             Which::NoCrash => vec![("searches", 20000, 200000), ("searches with hits", 5000, 50000), ("joined-record hits (two spans from a one-word query)", 50, 500), ("non-ASCII queries", 2000, 20000), ("limit 0", 200, 2000), ("limit 65536", 200, 2000), ("histories with boundary-value record ids", 2000, 20000), ("long-text searches", 500, 5000), ("long-text searches with a query over 255 characters", 100, 1000), ("corpus-store searches", 300, 3000), ("long-text cases with a giant word or a 1000+ word title", 20, 200), ("soak searches on one store", 600000, 2500000), ("most searches on one store max ", 66000, 66000), ("soak stores with more than 2^16 records", 2, 8), ("adds re-using the id of an earlier record", 5000, 50000)],
             Which::NoStale => vec![("search after add following an earlier search", 2000, 20000), ("search after clear following an earlier search", 500, 5000), ("search after limit following an earlier search", 500, 5000), ("empty-query search after a mutation following an earlier search", 1000, 10000), ("exhaustive histories", 20000, 200000), ("histories on a crowded store", 2000, 20000), ("histories that clear and refill a crowded store", 2000, 20000), ("histories growing a store past 64/128/256/512 records with searches in between", 200, 5000), ("histories growing a store past 1024 records with searches in between", 60, 1500), ("soak searches on one store", 1000000, 4000000), ("search repeating the previous query after a mutation", 2000, 20000), ("operations on another store of the same thread inside a history", 3000, 30000), ("registry-driven searches compared with a fresh store", 5000, 50000), ("adds re-using the id of an earlier record", 3000, 30000), ("histories whose searches run on other threads than the adds (the store is moved there and back)", 1500, 15000)],
-            Which::Registry => vec![("observations", 20000, 200000), ("observations with >= 2 live ids holding results", 2000, 20000), ("destroy", 300, 3000), ("searches", 3000, 30000), ("histories over 4-20 store ids", 1000, 10000), ("bursts of 45-120 records", 300, 3000), ("stores created with another language than their neighbours", 3000, 30000), ("searches repeating the text just sent to another id", 2000, 20000)],
+            Which::Registry => vec![("observations", 20000, 200000), ("observations with >= 2 live ids holding results", 2000, 20000), ("destroy", 300, 3000), ("searches", 3000, 30000), ("histories over 4-20 store ids", 1000, 10000), ("bursts of 45-120 records", 300, 3000), ("stores created with another language than their neighbours", 3000, 30000), ("searches repeating the text just sent to another id", 2000, 20000), ("histories whose result buffers are read only now and then", 5000, 50000)],
         }
     }
     fn run(&self, cx: &mut Cx, stream: &str, idx: u64) {
